@@ -45,7 +45,23 @@ def cases(ctx):
         allv = np.concatenate([np.asarray(pos, float), np.asarray(neg, float)])
         thr = gen.thresholds(rng, allv)
         shp = gen.shape(rng)
-        mode = str(rng.choice(["vec", "vec", "shape", "scalar", "list", "longvec"]))
+        mode = str(rng.choice(["vec", "vec", "shape", "scalar", "list", "longvec", "coarse", "coarse"]))
+        form_ = None
+        if mode == "coarse" and allv.size and float(np.abs(allv).max()) > 1e6:
+            mode = "vec"  # integer grids only around scores of ordinary magnitude
+        if mode == "coarse":
+            # thresholds coarser than the scores: integer dtype (np.arange grids, Python ints, range) or float32/float16 next to float64 scores
+            lo_, hi_ = (float(np.floor(allv.min())) - 1, float(np.ceil(allv.max())) + 1) if allv.size else (-1.0, 1.0)
+            hi_ = min(hi_, lo_ + 40)
+            form_ = str(rng.choice(["int64", "int32", "pyint", "range", "float32", "float16"]))
+            if form_ in ("int64", "int32"):
+                thr = np.arange(int(lo_), int(hi_) + 1).astype(form_)
+            elif form_ == "pyint":
+                thr = int(rng.integers(int(lo_), int(hi_) + 1))
+            elif form_ == "range":
+                thr = np.arange(int(lo_), int(hi_) + 1)  # handed over as a range object, see execute
+            else:
+                thr = thr.astype(form_)
         if mode == "longvec":  # a long 1-d vector in arbitrary order with repeats; ascending / descending variants too
             thr = rng.choice(thr, int(rng.choice([1000, 2500, 4096, 5000, 9000])) + int(rng.integers(0, 7)))
             o = int(rng.integers(0, 4))
@@ -64,7 +80,7 @@ def cases(ctx):
             "via": str(rng.choice(["ctor", "ctor", "from_labels", "swap2", "sorted", "boot_replacement", "boot_smoothing", "boot_single_pass", "boot_proportion",
                                    "boot_by_label", "group_item", "sample_swap", "replaced", "replaced", "relabelled", "relabelled"])),
             "_seed": int(rng.integers(1 << 31)),
-            "pos_form": str(rng.choice(gen.FORMS)), "neg_form": str(rng.choice(gen.FORMS)), "thr_form": str(rng.choice(gen.FORMS)),
+            "coarse": form_, "pos_form": str(rng.choice(gen.FORMS)), "neg_form": str(rng.choice(gen.FORMS)), "thr_form": str(rng.choice(gen.FORMS)),
         }
 
 
@@ -100,7 +116,11 @@ def execute(ctx, case):
     via = case["via"]
     # same values, different containers / memory layouts (lists, tuples, read-only, strided, Fortran order)
     pos, neg = gen.apply_form(pos, case.get("pos_form")), gen.apply_form(neg, case.get("neg_form"))
-    if isinstance(thr, np.ndarray):
+    if case.get("coarse") == "range":
+        thr = range(int(thr[0]), int(thr[-1]) + 1)
+    elif case.get("coarse"):
+        pass  # integer / narrow-float thresholds go in exactly as they are
+    elif isinstance(thr, np.ndarray):
         thr = gen.apply_form(thr, case.get("thr_form"))
         if isinstance(thr, tuple):
             thr = list(thr)
